@@ -92,11 +92,11 @@ func (c *caseRec) key() string {
 type spec struct {
 	mech       string
 	ttl        ttlOpt
-	vEnd       *time.Time    // end of the credential's / certificate's / token's own validity (nil: none)
-	leeway     time.Duration // validity leeway the statement allows on top of vEnd
-	codeLeeway time.Duration // safety margin heimdall subtracts (only used to classify the defect)
+	vEnd       *time.Time     // end of the credential's / certificate's / token's own validity (nil: none)
+	leeway     time.Duration  // validity leeway the statement allows on top of vEnd
+	codeLeeway time.Duration  // safety margin heimdall subtracts (only used to classify the defect)
 	relExpiry  *time.Duration // validity is "receipt + relExpiry" (client credentials): bound relative to the Set instant
-	defaultTTL time.Duration // TTL the mechanism uses when none is configured (classification only)
+	defaultTTL time.Duration  // TTL the mechanism uses when none is configured (classification only)
 }
 
 // judge applies the conservation oracle to the recorded phases.
@@ -277,6 +277,9 @@ func advanceFor(sp spec) time.Duration {
 		if *sp.relExpiry < 0 {
 			return 2 * time.Second
 		}
+		if *sp.relExpiry > 10*365*24*time.Hour {
+			return 0 // nothing to wait for
+		}
 		return *sp.relExpiry + 2*time.Second
 	case sp.vEnd != nil:
 		d := time.Until(sp.vEnd.Add(sp.leeway)) + 2*time.Second
@@ -309,10 +312,14 @@ func TestC10(t *testing.T) {
 		"advance the cache clock past the validity (virtual on miniredis; real sleeps <=4s on the in-memory cache in the thorough tier only), repeat. " +
 		"Oracle: conservation over the recorded cache events (ttl>0, set instant+ttl <= validity end (+validity leeway for authentication results), " +
 		"ttl <= configured, nothing at all with TTL 0, no hit after validity, zero/negative HTTP freshness => not stored and next request reaches the server). " +
-		"A case is non-trivial when the mechanism reached its caching decision (first execution successful) and a validity bound or a configured TTL applies.")
+		"A case is non-trivial when the mechanism reached its caching decision (first execution successful) and a validity bound or a configured TTL applies. " +
+		"TTL variants: every cacheable mechanism is used by three variants of one catalogue entry (prototype / rule level override resp. two overrides) with TTL 1h, a short TTL and 0 for the " +
+		"same subject / credential, long first and short first, the clock moving past the short TTL in between (virtual on miniredis, one common real pause of 2.3s on the in-memory cache): " +
+		"no variant is answered with an entry older than its own TTL, whoever stored it. HTTP responses also carry a Date ahead of / behind the cache's clock (alone and with Age), " +
+		"Cache-Control spread over several header lines (judged as the joined list) and Age / expires_in values beyond the range of time.Duration; JWKs with an x5c chain whose intermediate expires first.")
 	r.Assume("redis semantics are those of miniredis with heimdall's real rueidis based client (client side caching disabled as in the repository's tests)",
 		"virtual time only moves the cache clock: heimdall itself reads the wall clock, so after an advance only the hit/miss of the next lookup is judged",
-		"apparent age derived from an old Date header together with max-age is not generated (clock skew tolerance is outside the statement)")
+		"the age of a response is taken from its Age header only: that a Date lying in the past does not count against max-age / Expires-minus-Date is not judged (counted as an observation); a Date lying in the future must never extend the lifetime")
 
 	dir := os.Getenv("VERIF_RUNDIR")
 	if dir == "" {
@@ -347,6 +354,7 @@ func TestC10(t *testing.T) {
 	e.jwtFinalizer()
 	e.clientCredentials()
 	e.remoteAndContextualizer()
+	e.ttlVariants()
 	e.httpCache()
 
 	obs := map[string]int64{}
